@@ -34,14 +34,15 @@ Step(e) ==
         \* result of the call itself; a panic or a hang is never acceptable (C20)
         fRes == IF e.res \in {"panic", "hang"}
                 THEN F(FALSE, {"C20"} \cup (IF a.kind \in {"StartFeed", "StopFeed"} THEN {"C16"} ELSE {"C13"}), e, <<"call", e.res>>, want, e.err)
-                ELSE F(want = "any" \/ e.res = want,
+                ELSE F(want = "any" \/ e.res = want \/ (want = "refused" /\ e.res \in {"exists", "otherurl"}),
                        IF a.kind \in {"StartFeed", "StopFeed"} THEN {"C16"} ELSE {"C13"}, e,
                        <<"result", M.hs[a.h].st, a.mode>>, want, e.res)
         \* every handle: open ones see exactly their store's documents, closed ones fail closed
         fHandle(h) ==
             LET hd == N.hs[h]
                 o == e.hs[h] IN
-            CASE hd.st = "open" /\ ~hd.stale ->
+            CASE o.cls = "skip" -> 0      \* not looked through yet (the behaviour has only opened it so far)
+              [] hd.st = "open" /\ ~hd.stale ->
                    LET st == N.store[hd.n][hd.u]
                        same(c, got) == SeqToSet(got) = st.docs[c]
                        \* a deviation in a collection other than the one the call addressed is (also) a breach of isolation
